@@ -1,6 +1,8 @@
 import Hgxv.Model.C02
 import Hgxv.Proofs.C02Total
 import Hgxv.Proofs.C02Found
+import Hgxv.Proofs.C02X
+import Hgxv.Proofs.C02XSub
 /-! # C02 - property theorems (DirectedHypergraph faithfully stores (source set, target set) hyperedges)
 
 Model: `Hgxv/Model/C02.lean` (concrete `Store` mirroring `core/directed_hypergraph.py` after the `fix:` commits
@@ -462,3 +464,262 @@ example : let s := (get? (runCmds [] exampleHistory) 0).getD {}
     sourceEdges s 1 .all = some [([1], [3])] ∧ (abs s).sourceEdges 1 .all = some [([1], [3])] ∧
     neighbors s 3 (.size 2) = some [1] ∧ (abs s).neighbors 3 (.size 2) = some [1] ∧
     degreeSeq s .both = none ∧ (abs s).degreeSeq .both = none := by decide
+
+
+/-! ## Extension round: `get_edges(..., subhypergraph=True)`, the raw tables, the dunder methods (`Model/C02X.lean`) -/
+
+/-- **`get_edges(order, size, up_to, subhypergraph=True, keep_isolated_nodes)` commutes with the abstraction.**
+The routine builds a new `DirectedHypergraph` by calling the public mutators (`add_nodes`, `add_edges` with the weights read
+by `get_weight`, `set_node_metadata(get_node_metadata)` for every node of the NEW object, `set_edge_metadata(
+get_edge_metadata)` for every selected hyperedge).  For every reachable object `s`, every filter, `up_to` and
+`keep_isolated_nodes`: (1) the call is accepted on the tables exactly when the same routine is accepted on the abstract
+object `abs s` (a set of nodes plus a map), and the abstraction of the returned object IS the object the routine builds
+from `abs s`; (2) the returned object is itself reachable (a fresh object followed by public calls satisfying the
+quantifier), so the invariant and EVERY theorem of this file - all queries, direction, once-per-role - hold for it;
+(3) order and size given together, or `keep_isolated_nodes` without `subhypergraph`, are rejected whatever the other
+options are. -/
+theorem C02_subhypergraph_refines (s : Store) (hr : Reachable s) (f : Filt) (up keep : Bool) :
+    (subHG s f up keep).map abs = (abs s).subHG f up keep ∧
+    (∀ h, subHG s f up keep = some h → Reachable h ∧ Inv h) ∧
+    (∀ sub md, f.target = none → getEdgesCall s f up sub keep md = none) ∧
+    (∀ md, keep = true → getEdgesCall s f up false keep md = none) ∧
+    (f.target ≠ none → getEdgesCall s f up true keep false = (subHG s f up keep).map EdgesAns.hg) := by
+  have hi := C02_inv s hr
+  obtain ⟨h1, h2⟩ := subHG_abs s hi f up keep
+  refine ⟨h1, ?_, ?_, ?_, ?_⟩
+  · intro h hh
+    obtain ⟨ops, hw, he, hinv, _⟩ := h2 h hh
+    obtain ⟨c1, c2⟩ := fresh_history s.weighted ops hw
+    exact ⟨⟨_, 0, c1, by rw [c2, he]⟩, hinv⟩
+  · intro sub md ht
+    simp [getEdgesCall, ht]
+  · intro md hk
+    simp [getEdgesCall, hk]
+  · intro ht
+    cases hft : f.target with
+    | none => exact absurd hft ht
+    | some t => simp [getEdgesCall, hft]
+
+/-- non-vacuity: the final object of the example history (weighted, two hyperedges, five nodes of which one isolated with
+metadata); extraction with and without the isolated nodes, with a size filter, rejected with order and size together -/
+def C02.exampleFinal : Store := (get? (runCmds [] exampleHistory) 0).getD {}
+example : (subHG exampleFinal .all false true).map abs = (abs exampleFinal).sub .all false true := by decide
+example : (subHG exampleFinal .all false true).map nodes = some [7, 1, 3, 5, 6] ∧
+    (subHG exampleFinal .all false true).map (fun h => keys h.edgeList) = some [([1], [3]), ([3], [1])] ∧
+    (subHG exampleFinal .all false true).map (fun h => h.weights) = some [(0, (8 : Int)), (1, 4)] ∧
+    (subHG exampleFinal .all false true).bind (fun h => nodeMeta h 7) = some [(2, 3)] := by decide
+example : (subHG exampleFinal (.size 2) true false).map (fun h => (nodes h, edgeMeta h (.ofLists [1] [3]))) =
+    some ([1, 3], some [(2, 5)]) := by decide
+example : (subHG exampleFinal (.size 3) false false).map nodes = some [] := by decide
+example : (subHG exampleFinal .both false true).isNone = true ∧ (abs exampleFinal).subHG .both false true = none := by decide
+
+/-- **The hypergraph returned by `get_edges(..., subhypergraph=True)` IS the selected part of the abstract object.**
+For every reachable object `s`, every filter, `up_to` and `keep_isolated_nodes`: the call is accepted whenever order and
+size are not given together, and the abstraction of the returned object is `Spec.sub (abs s)`: exactly the hyperedges of
+`abs s` that pass the filter, each with ITS weight and ITS metadata, in their order; the nodes are all nodes of `abs s`
+(`keep_isolated_nodes`) or the endpoints of the selected hyperedges in order of first appearance, each with ITS
+metadata; the same weightedness; fresh hypergraph metadata (`weighted`, `type`).  Nothing else: no other hyperedge, no
+other node, no stale id (the new object is reachable, `C02_subhypergraph_refines`).  In an unweighted hypergraph the
+routine does not pass weights; the statement holds because every stored weight is 1 there (invariant `Unw`). -/
+theorem C02_subhypergraph_is_selected_part (s : Store) (hr : Reachable s) (f : Filt) (up keep : Bool) :
+    (subHG s f up keep).map abs = (abs s).sub f up keep ∧
+    (f.target ≠ none → (subHG s f up keep).isSome = true) ∧
+    (∀ h t, f.target = some t → subHG s f up keep = some h →
+      h.weighted = s.weighted ∧ h.hmeta = ctorHMeta none s.weighted ∧
+      keys h.edgeList = (keys s.edgeList).filter (passes t up) ∧
+      (keep = true → nodes h = nodes s) ∧
+      (∀ n, checkNode h n = true → checkNode s n = true)) := by
+  obtain ⟨cs, slot, hcs, hs⟩ := hr
+  obtain ⟨hi, ho, hu⟩ := runCmds_all [] cs hcs (fun _ _ h => by simp [get?] at h) (fun _ _ h => by simp [get?] at h)
+    (fun _ _ h => by simp [get?] at h)
+  have h := hi slot s hs
+  have u := hu slot s hs
+  have wf := specWF_abs s h u
+  have e1 := (subHG_abs s h f up keep).1
+  rw [Spec.subHG_eq_sub (abs s) wf f up keep] at e1
+  refine ⟨e1, ?_, ?_⟩
+  · intro ht
+    cases hft : f.target with
+    | none => exact absurd hft ht
+    | some t =>
+      cases hsub : subHG s f up keep with
+      | some h' => rfl
+      | none => rw [hsub] at e1; simp [Spec.sub, hft] at e1
+  · intro h' t ht hsub
+    rw [hsub] at e1
+    simp only [Spec.sub, ht, Option.map_some] at e1
+    injection e1 with e1
+    have ew : (abs h').weighted = h'.weighted := rfl
+    have eh : (abs h').hmeta = h'.hmeta := rfl
+    have ek := abs_edges_keys h'
+    have en := abs_nodes_keys h'
+    have ew0 : (abs s).weighted = s.weighted := rfl
+    rw [e1] at ew eh ek en
+    simp only at ew eh ek en
+    refine ⟨ew.symm, eh.symm, ?_, ?_, ?_⟩
+    · rw [← ek, ← abs_edges_keys s]
+      simp only [keys, List.filter_map]
+      rfl
+    · intro hk
+      subst hk
+      simp only [if_true] at en
+      show keys h'.adjS = keys s.adjS
+      rw [← en, abs_nodes_keys]
+    · intro n hn
+      have hn' : n ∈ keys h'.adjS := (isSome_get?_iff _ _).mp hn
+      rw [← en] at hn'
+      show (get? s.adjS n).isSome = true
+      rw [isSome_get?_iff, ← abs_nodes_keys]
+      cases keep with
+      | true => simpa using hn'
+      | false =>
+        simp only [Bool.false_eq_true, if_false, keys, List.map_map] at hn'
+        obtain ⟨m, hm, rfl⟩ := List.mem_map.mp hn'
+        have := (mem_firstOcc _ m).mp hm
+        obtain ⟨p, hp, hmp⟩ := List.mem_flatMap.mp this
+        exact wf.ends p (List.mem_filter.mp hp).1 m (List.mem_append.mp hmp)
+
+/-- non-vacuity: on the example the selected part, computed by filter / map from the abstract object, is what the
+routine returns -/
+example : (abs exampleFinal).sub (.size 2) false false =
+    some { weighted := true, nodes := [(1, []), (3, [])],
+           edges := [(([1], [3]), ((8 : Int), [(2, 5)])), (([3], [1]), ((4 : Int), []))], hmeta := [(0, 1), (1, 2)] } ∧
+    (subHG exampleFinal (.size 2) false false).map abs = (abs exampleFinal).sub (.size 2) false false ∧
+    ((abs exampleFinal).sub .all true true).map (·.nodes) = some [(7, [(2, 3)]), (1, []), (3, []), (5, []), (6, [])] := by
+  decide
+
+/-- **The raw tables.**  `expose_data_structures()`, `get_edge_list()`, `get_adj_dict()`, `len`, `iter`, `str`,
+`is_weighted` hand out the tables themselves (the correspondence run compares them with the model's `Store` entry by entry, in
+their order).  For every reachable object: `len` = number of keys of the abstract object, iteration lists the keys of the
+abstract object in its order, each with its id; `get_edge_list` and the reverse table are inverse to each other; ids are
+below `next_edge_id` and pairwise different (no id is ever handed out twice, also after removals); a row of
+`get_adj_dict('source')` (`'target'`) is a duplicate-free list of exactly the ids of the hyperedges having the node as a
+source (target); the weight and metadata tables have exactly the live ids; `str` prints the counts and the size
+distribution of the abstract object. -/
+theorem C02_raw_tables (s : Store) (hr : Reachable s) :
+    len s = (abs s).edges.length ∧ (iterItems s).map (·.1) = (abs s).keyList ∧ iterItems s = getEdgeList s ∧
+    getEdgeList s = (expose s).edgeList ∧ isWeighted s = (abs s).weighted ∧
+    strParts s = ((abs s).nodes.length, (abs s).edges.length, histogram (abs s).sizes) ∧
+    (∀ k id, get? (getEdgeList s) k = some id ↔ get? (expose s).reverse id = some k) ∧
+    (∀ k id, get? (getEdgeList s) k = some id → id < (expose s).nextId) ∧
+    (∀ k k' id, get? (getEdgeList s) k = some id → get? (getEdgeList s) k' = some id → k = k') ∧
+    (∀ n ids, get? (getAdjDict s true) n = some ids →
+      ids.Nodup ∧ ∀ id, id ∈ ids ↔ ∃ k, get? (getEdgeList s) k = some id ∧ n ∈ k.1) ∧
+    (∀ n ids, get? (getAdjDict s false) n = some ids →
+      ids.Nodup ∧ ∀ id, id ∈ ids ↔ ∃ k, get? (getEdgeList s) k = some id ∧ n ∈ k.2) ∧
+    (∀ id, (get? (expose s).weights id).isSome = (get? (expose s).reverse id).isSome ∧
+      (get? (expose s).edgeMeta id).isSome = (get? (expose s).reverse id).isSome) := by
+  have h := C02_inv s hr
+  have qn := q_numbers s
+  refine ⟨qn.2.1, (abs_edges_keys s).symm, rfl, rfl, rfl, ?_, ?_, ?_, ?_, ?_, ?_, ?_⟩
+  · show (numNodes s, numEdges s, distSizes s) = _
+    rw [qn.1, qn.2.1]
+    unfold distSizes
+    rw [qn.2.2.1]
+  · intro k id
+    exact ⟨h.rev_of_edge k id, h.edge_of_rev k id⟩
+  · intro k id hk
+    exact h.id_lt id k (h.rev_of_edge k id hk)
+  · intro k k' id hk hk'
+    have a := h.rev_of_edge k id hk
+    have b := h.rev_of_edge k' id hk'
+    rw [a] at b
+    injection b
+  · intro n ids hn
+    refine ⟨h.adjS_nodup n ids hn, fun id => ?_⟩
+    rw [h.adjS_iff n ids hn id]
+    constructor
+    · rintro ⟨k, hk, hm⟩; exact ⟨k, h.edge_of_rev k id hk, hm⟩
+    · rintro ⟨k, hk, hm⟩; exact ⟨k, h.rev_of_edge k id hk, hm⟩
+  · intro n ids hn
+    refine ⟨h.adjT_nodup n ids hn, fun id => ?_⟩
+    rw [h.adjT_iff n ids hn id]
+    constructor
+    · rintro ⟨k, hk, hm⟩; exact ⟨k, h.edge_of_rev k id hk, hm⟩
+    · rintro ⟨k, hk, hm⟩; exact ⟨k, h.rev_of_edge k id hk, hm⟩
+  · intro id
+    exact ⟨h.weights_same id, h.emeta_same id⟩
+
+/-- non-vacuity: the raw tables of the final object of the example history (ids 3 and 4 live, ids 0-2, 5, 6 retired) -/
+example : let s := exampleFinal
+    getEdgeList s = [(([1], [3]), 3), (([3], [1]), 4)] ∧ (expose s).nextId = 7 ∧ len s = 2 ∧
+    getAdjDict s true = [(7, []), (1, [3]), (3, [4]), (5, []), (6, [])] ∧
+    strParts s = (5, 2, [(2, 2)]) := by decide
+
+/-- **Incidence metadata: the whole object refines the abstract object with the same side table.**
+`Full` = the ten tables + `_incidences_metadata`; `FOp` = every public mutator + `set_incidence_metadata`.  For every
+sequence of such calls on a fresh object (hyperedges handed to `add_edge(s)` satisfy the quantifier; nothing is assumed
+about the arguments of `set_incidence_metadata`): the abstraction of the reached object is what the same sequence
+produces on (set of nodes + map, side table); every `get_incidence_metadata(edge, node)` answers alike (raises alike:
+absent hyperedge, missing entry, bare-node side), and the invariant holds. -/
+theorem C02_incidence_refines (w : Bool) (ops : List FOp) (hops : ∀ o ∈ ops, o.WF) :
+    fabs (Full.run { base := { weighted := w } } ops) = FSpec.run { base := { weighted := w } } ops ∧
+    Inv (Full.run { base := { weighted := w } } ops).base ∧
+    (∀ e n, (Full.run { base := { weighted := w } } ops).getInc e n =
+      (FSpec.run { base := { weighted := w } } ops).getInc e n) := by
+  have r := fabs_run { base := { weighted := w } } ops hops (inv_init w []) (ord_init w [])
+  refine ⟨r.1, r.2, fun e n => ?_⟩
+  rw [getInc_fabs, r.1]
+  rfl
+
+/-- **What `set_incidence_metadata` does and what leaves the side table alone** (every `Full` object, no hypothesis).
+(1) The call is accepted exactly when `check_edge` says the hyperedge is present (a bare-node side raises);
+(2) after an accepted call `get_incidence_metadata` returns the value under EVERY listing with the same canonical key
+(any order of the nodes of either side), whatever the node (it is not checked);
+(3) the entry of every other (hyperedge, node) pair is untouched, and so are the ten tables;
+(4) every public mutator except `clear()` leaves the side table as it is - also `remove_edge` / `remove_node`: an entry
+of a removed hyperedge is not pruned and shows again when the hyperedge is re-inserted (modelled as the code behaves);
+`clear()` empties it;  (5) a rejected call changes nothing. -/
+theorem C02_incidence_frame (x : Full) (e : RawEdge) (n : Node) (md : Meta) :
+    ((x.apply (.setInc e n md)).2 = .ok ↔ checkEdge x.base e = some true) ∧
+    ((x.apply (.setInc e n md)).2 = .ok → ∀ e', canonStrict e' = canonStrict e →
+      (x.apply (.setInc e n md)).1.getInc e' n = some md) ∧
+    (∀ k' n', some k' ≠ canonStrict e ∨ n' ≠ n →
+      get? (x.apply (.setInc e n md)).1.inc (k', n') = get? x.inc (k', n')) ∧
+    (x.apply (.setInc e n md)).1.base = x.base ∧
+    (∀ o, (x.apply (.base o)).1.inc = if isClear o then [] else x.inc) ∧
+    ((x.apply (.setInc e n md)).2 = .rej → (x.apply (.setInc e n md)).1 = x) := by
+  simp only [Full.apply, setIncG, Full.getInc, getIncG, checkEdge]
+  cases hc : canonStrict e with
+  | none => simp
+  | some k =>
+    cases hp : has x.base.edgeList k with
+    | false =>
+      simp only [hp, Option.map_some, Bool.false_eq_true, if_false]
+      refine ⟨?_, ?_, ?_, ?_, ?_, ?_⟩ <;> first | trivial | rfl | simp
+    | true =>
+      simp only [hp, Option.map_some, if_true]
+      refine ⟨?_, ?_, ?_, ?_, ?_, ?_⟩
+      · first | trivial | simp
+      · intro _ e' he'
+        rw [he']
+        simp [hp]
+      · intro k' n' hne
+        rw [get?_set]
+        have : ¬ ((k, n) = (k', n')) := by
+          intro heq
+          injection heq with h1 h2
+          rcases hne with h | h
+          · exact h (by rw [h1])
+          · exact h h2.symm
+        simp [this]
+      · first | trivial | rfl
+      · first | trivial | (intro o; first | trivial | rfl)
+      · first | trivial | simp
+
+/-- non-vacuity: two entries (one for a node that is not in the hypergraph), permuted listing, the entry survives the
+removal of its hyperedge and shows again after re-insertion, `clear()` empties the table -/
+example :
+    let ops : List FOp := [.base (.addEdge (.ofLists [2, 1] [3]) none none), .setInc (.ofLists [1, 2] [3]) 2 [(2, 3)],
+      .setInc (.ofLists [2, 1] [3]) 7 [], .setInc (.ofLists [1] [3]) 1 [], .base (.removeEdge (.ofLists [1, 2] [3]))]
+    (∀ o ∈ ops, o.WF) ∧
+    (Full.run {} ops).allInc = [((([1, 2], [3]), 2), [(2, 3)]), ((([1, 2], [3]), 7), [])] ∧
+    (Full.run {} ops).getInc (.ofLists [2, 1] [3]) 2 = none ∧
+    (Full.run {} (ops ++ [.base (.addEdge (.ofLists [1, 2] [3]) none none)])).getInc (.ofLists [2, 1] [3]) 2 = some [(2, 3)] ∧
+    (Full.run {} (ops ++ [.base .clear])).allInc = [] := by
+  refine ⟨?_, by decide, by decide, by decide, by decide⟩
+  intro o ho
+  simp only [List.mem_cons, List.mem_nil_iff, or_false] at ho
+  rcases ho with rfl | rfl | rfl | rfl | rfl
+  · exact RawWF_of_ok _ (by decide)
+  all_goals trivial
